@@ -54,3 +54,9 @@ contract(f"{ENV}::set_random_seed", props=["C03", "C04"],
 
 # logging / output settings never steer the seeded random stream
 scan("C03", "output-guarded-randomness", lambda: scans.output_guarded_randomness())
+
+# the order in which agents' rewards are computed comes from sets of agent names (science.py): it is reproducible only in so far as ANY
+# order the functions may produce is a valid dependencies-first order -- the bounded stand-in of C10, also run here
+from pyvc.contracts import native_bounded  # noqa: E402
+native_bounded("C03", "science.graph_has_cycle+topological_sort", "bounded/science_graphs.py", "all directed graphs on <= 4 agents x all declaration orders",
+               "whatever order the set iteration yields, the evaluation order is dependencies-first for every declaration order (so shared rewards do not depend on the hash seed)")
